@@ -54,8 +54,8 @@ FxExact(T, op, rule, a, b, c, w) ==
 Divisor(op, b, c) == IF op = "muldiv" THEN c ELSE b
 DividesByZero(op, b, c) == op \in {"div", "mod", "muldiv"} /\ ZIsZero(Divisor(op, b, c))
 
-\* the verdict on one recorded call: (out, r) observed; w the witness (w2: the scaled quotient a*F/b
-\* truncated, only for mod)
+\* the verdict on one recorded call: (out, r) observed; w the witness (w2: for mod the scaled quotient a*F/b
+\* truncated; for muldiv the quotient a*b/c truncated, only used to classify deviations)
 FxValid(T, op, rule, a, b, c, out, r, w, w2) ==
   IF DividesByZero(op, b, c) THEN out = "divzero"
   ELSE IF op = "mod"
@@ -71,5 +71,24 @@ FxExpected(T, op, a, b, c, w, w2) ==
                            r |-> ZSub(a, ZMul(w, b))]
   ELSE IF TInRange(T, w) THEN [out |-> "ok", r |-> w]
   ELSE [out |-> "overflow or underflow", r |-> ZZero]
+
+-----------------------------------------------------------------------------
+(* Named deviation (known finding)                                         *)
+
+\* DevFmdLowWordAllOnes: multiplyDivide of the 128-bit types divides a 256-bit product by a 128-bit divisor
+\* with a hand-written long division (library onflow/fixed-point, div192by128).  In one edge case of its
+\* quotient-digit estimate it ASSUMES that the low 64-bit word of the quotient is 2^64 - 1 without checking;
+\* when the true low word is 2^64 - 2 the quotient comes out one too high, and the requested rounding is then
+\* applied on top of it.  Observable: with q = trunc(|a*b / c|) (witness w2)
+\*      (q + 1) mod 2^64 = 2^64 - 1,   |result| = |exact rounded result| + 1,   |result| in {q + 1, q + 2}.
+AllOnes64 == MSub(MPow2(64), <<1>>)
+DevFmdApplies(T, op, out, r, w, w2) ==
+  /\ op = "muldiv" /\ T.bits = 128 /\ out = "ok"
+  /\ MLowBits(MAdd(w2.m, <<1>>), 64) = AllOnes64
+  /\ r.m = MAdd(w.m, <<1>>)
+  /\ r.m \in {MAdd(w2.m, <<1>>), MAdd(w2.m, <<2>>)}
+  /\ (r.n = w.n \/ ZIsZero(w))
+
+FxDeviation(T, op, out, r, w, w2) == IF DevFmdApplies(T, op, out, r, w, w2) THEN "DevFmdLowWordAllOnes" ELSE "none"
 
 =============================================================================
